@@ -8,12 +8,17 @@ import (
 	"errors"
 	"time"
 
+	"github.com/massnetorg/mass-core/blockchain"
 	"github.com/massnetorg/mass-core/database"
 	"github.com/massnetorg/mass-core/massutil"
+	"github.com/massnetorg/mass-core/txscript"
 	"github.com/massnetorg/mass-core/wire"
 	"massnet.org/mass-wallet/config"
+	mwdb "massnet.org/mass-wallet/masswallet/db"
 	"massnet.org/mass-wallet/masswallet/ifc"
+	"massnet.org/mass-wallet/masswallet/keystore"
 	"massnet.org/mass-wallet/masswallet/txmgr"
+	"massnet.org/mass-wallet/masswallet/utils"
 	rt "massnet.org/mass-wallet/zzverifrt"
 )
 
@@ -186,6 +191,131 @@ func VerifC01TipStep() {
 			rt.Assert(ok, "connected-heights-noted-for-pending-expiry")
 		}
 		rt.Reach("accepted")
+	}
+	rt.Reach("end")
+}
+
+// ---- relevance filter ----
+
+var c01TxReg []*wire.MsgTx
+var c01TxIDs []wire.Hash
+var c01TxSeeds []wire.Hash
+
+// transaction id model (symbolic runs): an arbitrary id per transaction object, drawn by the harness
+func c01TxHashModel(msg *wire.MsgTx) wire.Hash {
+	for i, p := range c01TxReg {
+		if p == msg {
+			return c01TxIDs[i]
+		}
+	}
+	c01TxReg = append(c01TxReg, msg)
+	c01TxIDs = append(c01TxIDs, c01TxSeeds[0])
+	c01TxSeeds = c01TxSeeds[1:]
+	return c01TxIDs[len(c01TxIDs)-1]
+}
+
+type c01TxNode struct {
+	ifc.ChainFetcher
+	prev *wire.MsgTx
+}
+
+func (n *c01TxNode) FetchTxBySha(sha *wire.Hash) (*wire.MsgTx, error) {
+	if n.prev != nil && n.prev.TxHash() == *sha {
+		return n.prev, nil
+	}
+	return nil, nil
+}
+
+func c01P2WSH(sh []byte) []byte { return append([]byte{txscript.OP_0, txscript.OP_DATA_32}, sh...) }
+
+// VerifC01RelevanceFilter: the real filterTx on a block transaction with one input and one output. Wallet W is
+// ready and owns script hash hW, wallet V is still importing and owns hV; the input spends output idx of a
+// transaction the node knows, paying to hIn, the output pays to hOut (all arbitrary 32-byte hashes; the store
+// holds a coin for the spent output exactly when it is W's, as the ledger invariant says). The filter reports
+// the output as W's exactly when hOut = hW, the input as W's exactly when hIn = hW, nothing for V, and the
+// transaction as relevant exactly when one of the two holds; an input index beyond the previous transaction's
+// outputs is refused.
+func VerifC01RelevanceFilter() {
+	st := txmgr.VerifNewStoresWithKeystoreManager([]byte("DJr6BomK"))
+	const W, V = "ac10wwwwwwwwwwwwwwwwwwwwwwwwwwwwwwwwwwwwww", "ac10vvvvvvvvvvvvvvvvvvvvvvvvvvvvvvvvvvvvvv"
+	hW, hV, hIn, hOut := rt.NondetBytes(32), rt.NondetBytes(32), rt.NondetBytes(32), rt.NondetBytes(32)
+	rt.Assume(!bytes.Equal(hW, hV))
+	text := func(sh []byte) string {
+		ps, err := utils.ParsePkScript(c01P2WSH(sh), config.ChainParams)
+		rt.Assert(err == nil, "harness-script-parses")
+		return ps.StdEncodeAddress()
+	}
+	keystore.VerifAddWallet(st.Ks, W)
+	keystore.VerifAddWallet(st.Ks, V)
+	keystore.VerifAddAddressWithHash(st.Ks, W, text(hW), hW)
+	keystore.VerifAddAddressWithHash(st.Ks, V, text(hV), hV)
+	done := make([]byte, 9)
+	binary.BigEndian.PutUint64(done, txmgr.WalletSyncedDone)
+	st.WS.Set([]byte(W), done)
+	st.WS.Set([]byte(V), []byte{0, 0, 0, 0, 0, 0, 0, 5, 0})
+
+	c01TxReg, c01TxIDs, c01TxSeeds = nil, nil, nil
+	for i := 0; i < 2; i++ {
+		var id wire.Hash
+		copy(id[:], rt.NondetBytes(32))
+		c01TxSeeds = append(c01TxSeeds, id)
+	}
+	rt.Assume(c01TxSeeds[0] != c01TxSeeds[1])
+	prev := wire.NewMsgTx()
+	prev.AddTxIn(wire.NewTxIn(&wire.OutPoint{Index: 7}, nil))
+	prev.AddTxOut(wire.NewTxOut(5, c01P2WSH(hIn)))
+	prev.AddTxOut(wire.NewTxOut(6, c01P2WSH(hIn)))
+	prevID := prev.TxHash()
+	idx := uint32(rt.NondetLen(0, 2))
+	tx := wire.NewMsgTx()
+	tx.AddTxIn(wire.NewTxIn(&wire.OutPoint{Hash: prevID, Index: idx}, nil))
+	tx.AddTxOut(wire.NewTxOut(4, c01P2WSH(hOut)))
+	rt.Assume(!blockchain.IsCoinBaseTx(tx))
+	txID := tx.TxHash()
+	inMine := bytes.Equal(hIn, hW)
+	outMine := bytes.Equal(hOut, hW)
+	if inMine {
+		// both outputs of the previous transaction pay hIn: the ledger holds both coins
+		var bh wire.Hash
+		st.VerifPutStandardCredit(W, wire.OutPoint{Hash: prevID, Index: 0}, 3, bh, 5, hIn)
+		st.VerifPutStandardCredit(W, wire.OutPoint{Hash: prevID, Index: 1}, 3, bh, 6, hIn)
+	}
+	node := &c01TxNode{prev: prev}
+	w := &WalletManager{config: &config.Config{Wallet: config.NewDefWalletConfig()}, db: st.DB, chainParams: config.ChainParams,
+		ksmgr: st.Ks, bucketMeta: st.Meta, utxoStore: st.Utxo, txStore: st.Tx, syncStore: st.Sync, chainFetcher: node}
+	h := &NtfnsHandler{walletMgr: w, mempool: map[wire.Hash]struct{}{}, expiredMempool: map[uint64]map[wire.Hash]struct{}{}}
+	var ready map[string]struct{}
+	err := mwdb.View(st.DB, func(rtx mwdb.ReadTransaction) (e error) {
+		ready, e = h.getReadyWallets(rtx)
+		return
+	})
+	rt.Assert(err == nil, "ready-wallets-read")
+	_, wReady := ready[W]
+	_, vReady := ready[V]
+	rt.Assert(wReady && !vReady && len(ready) == 1, "only-the-finished-wallet-is-followed")
+	meta := &txmgr.BlockMeta{Height: 9}
+	rel, rec, ferr := h.filterTx(tx, meta, map[wire.Hash]*txmgr.TxRecord{}, ready)
+	if idx >= 2 && inMine {
+		rt.Assert(ferr != nil, "input-index-beyond-the-previous-outputs-refused")
+		rt.Reach("end")
+		return
+	}
+	rt.Assert(ferr == nil, "filter-succeeds")
+	if ferr != nil {
+		rt.Reach("end")
+		return
+	}
+	rt.Assert(rel == (inMine || outMine), "relevant-iff-an-input-or-output-is-the-wallets")
+	if rel {
+		rt.Assert(rec != nil && rec.Hash == txID, "record-carries-the-transaction-id")
+		rt.Assert((len(rec.RelevantTxOut) == 1) == outMine && len(rec.RelevantTxOut) <= 1, "output-reported-iff-it-pays-the-wallet")
+		rt.Assert((len(rec.RelevantTxIn) == 1) == inMine && len(rec.RelevantTxIn) <= 1, "input-reported-iff-it-spends-the-wallets-coin")
+		for _, m := range rec.RelevantTxOut {
+			rt.Assert(m.Index == 0 && m.WalletId == W, "reported-output-names-the-owner")
+		}
+		for _, m := range rec.RelevantTxIn {
+			rt.Assert(m.Index == 0 && m.WalletId == W, "reported-input-names-the-owner")
+		}
 	}
 	rt.Reach("end")
 }
